@@ -9,10 +9,10 @@ python3 tools/mkprops.py C01 "Arbitrary input is processed totally: no panic, ov
 Open Scope N_scope." Lexer_proofs:lex_next_no_panic,lex_progress,lex_total,lex_params_total,tokenize_shape Tree_proofs:run_tokens_total,run_total,pull_only_data,pull_req_only_data Conv_proofs:conv_total Lists_proofs:nlist_total,clist_total,spec_values_total,spec_tuple_total --section "$SEC"
 python3 tools/mkprops.py C02 "Compound-command header paths resolve to exactly the SCPI-designated handler" "From VF Require Import Base Gen_Errors Lexer Mnemonic Grammar Response Tree HeaderSpec Header_proofs MessageSpec Message_proofs.
 Open Scope N_scope." Header_proofs:resolve_sound,resolve_undefined,exec_undefined_invokes_nothing,resolve_complete,designation_unique,default_branch_omitted,default_leaf_omitted,node_spelled_out,unit_absolute,unit_common_keeps_context,unit_relative,message_starts_at_root Message_proofs:message_semantics --section "$SEC"
-python3 tools/mkprops.py C04 "Lexing is faithful: element boundaries and types follow IEEE 488.2 section 7" "From VF Require Import Base Gen_Errors Fmt Lexer Grammar Lexer_proofs Grammar_proofs Message_proofs2.
-Open Scope N_scope." Grammar_proofs:lex_faithful Message_proofs2:lex_faithful_trailing_separator,lex_empty Lexer_proofs:lex_total,lex_params_total,lex_progress,tokenize_shape,lex_error_class,mnemonic_13,chardata_13,unterminated_string,non_ascii_in_string,non_ascii_outside,block_truncated,block_bad_header,doubled_colon,colon_in_data,colon_in_common,comma_in_header,doubled_comma,comma_after_header_sep,missing_separator_after_chardata,missing_separator_after_string
-python3 tools/mkprops.py C05 "Units run in order; the first error aborts the message and is reported once" "From VF Require Import Base Gen_Errors Lexer Grammar Response Tree Tree_proofs HeaderSpec MessageSpec Message_proofs Message_proofs2.
-Open Scope N_scope." Tree_proofs:hook_exactly_once,exec_invokes_at_most_once,first_error_aborts,stream_error_aborts,trace_bounded_by_units,leftover_is_108 Message_proofs:message_semantics,message_semantics_tokens,layout_independent,spec_units_ok_trace,spec_units_err_trace,spec_units_trace_extends Message_proofs2:message_semantics_empty,message_semantics_trailing_separator --section "$SEC"
+python3 tools/mkprops.py C04 "Lexing is faithful: element boundaries and types follow IEEE 488.2 section 7" "From VF Require Import Base Gen_Errors Fmt Lexer Grammar Lexer_proofs Grammar_proofs Message_proofs2 Message_proofs3 Lexer_ranges.
+Open Scope N_scope." Grammar_proofs:lex_faithful Message_proofs2:lex_faithful_trailing_separator,lex_empty Message_proofs3:tokenize_prefix Lexer_ranges:lex_next_range,lex_next_range_suffix,tokenize_ranges,tokenize_params_ranges,payload_bytes_from_input,payload_total_length,tokenize_tiles,tokenize_params_tiles,range_mnemonic,range_char,range_dec,range_decsuffix,range_nondec,range_string,range_block,range_block_definite,range_expr,range_separator Lexer_proofs:lex_total,lex_params_total,lex_progress,tokenize_shape,lex_error_class,mnemonic_13,chardata_13,unterminated_string,non_ascii_in_string,non_ascii_outside,block_truncated,block_bad_header,doubled_colon,colon_in_data,colon_in_common,comma_in_header,doubled_comma,comma_after_header_sep,missing_separator_after_chardata,missing_separator_after_string
+python3 tools/mkprops.py C05 "Units run in order; the first error aborts the message and is reported once" "From VF Require Import Base Gen_Errors Lexer Grammar Response Tree Tree_proofs HeaderSpec MessageSpec Message_proofs Message_proofs2 MessageSpec3 Message_proofs3.
+Open Scope N_scope." Tree_proofs:hook_exactly_once,exec_invokes_at_most_once,first_error_aborts,stream_error_aborts,trace_bounded_by_units,leftover_is_108 Message_proofs:message_semantics,message_semantics_tokens,layout_independent,spec_units_ok_trace,spec_units_err_trace,spec_units_trace_extends Message_proofs2:message_semantics_empty,message_semantics_trailing_separator Message_proofs3:message_prefix_semantics,run_from_prefix_semantics,bad_unit_aborts,prefix_trace_preserved,failed_prefix_tail_irrelevant,failed_prefix_trace_exact,spec_units_prefix --section "$SEC"
 python3 tools/mkprops.py C06 "A handler sees exactly its own unit's parameters; wrong arity is an error" "From VF Require Import Base Gen_Errors Lexer Grammar Response Tree Tree_proofs HeaderSpec MessageSpec Message_proofs.
 Open Scope N_scope." Tree_proofs:pull_only_data,pull_req_only_data,pull_consumes_only_data,pull_req_consumes_only_data,pull_first_datum,pull_next_datum,pull_at_unit_end,handler_stays_in_unit,leftover_is_108 Message_proofs:message_semantics,spec_prog_consumes_prefix --section "$SEC"
 FL='@(* the float the model reads for a decimal literal IS the correctly rounded IEEE-754 value (Flocq 4.1) *)
